@@ -189,7 +189,7 @@ def judge_hid(res, cfg, w, obs):
         elif oc[0] == "raised":
             if oc[1] != "CommunicationError":
                 add_violation(res, f"C17:{tag}:raised:{oc[1]}", f"{cfg}: {who} raised {oc[1:]} instead of CommunicationError", case)
-            elif not cfg["exc_on"]:
+            elif not cfg["exc_on"] and cfg["kinds"][i] != "seq":       # (run_sequence never retries: it may always raise)
                 add_violation(res, f"C17:{tag}:exception-despite-exceptions-off", f"{cfg}: {who} raised CommunicationError", case)
             elif not lost:
                 add_violation(res, f"C17:{tag}:spurious-communication-error", f"{cfg}: {who} raised without any loss", case)
@@ -414,6 +414,10 @@ def shards(tier):
             for exc_on in (True, False):
                 for ret in (False, True):
                     out.append(("loss", drv, kinds, exc_on, None, ret, 1, 2 if len(kinds) == 1 else 1, "arg"))
+        # sequences while the driver-wide default says "no exceptions": a sequence is never handed a made-up answer
+        for kinds in (("seq",), ("seq", "num"), ("num", "seq")):
+            for ret in (False, True):
+                out.append(("loss", drv, kinds, False, None, ret, 1, 2 if len(kinds) == 1 else 1))
         # the gateway disappears AT a write (every write of the scenario in turn, the second write of a send-twice frame included)
         for kinds in (("twice",), ("num",), ("dt",), ("twice", "num")):
             for exc_on in (True, False):
